@@ -844,6 +844,55 @@ fn gen_mp(rng: &mut Rng, n: u64, tier: &str, emit: &mut dyn FnMut(Vec<String>)) 
             }
         }
     }
+    gen_mp_big(rng, tier, emit);
+}
+
+/// a well-formed form whose fields in front of the file add up to `pre` bytes or more (several KiB per field)
+fn gen_big_form(rng: &mut Rng, pre: usize) -> Form {
+    let boundary = gen_boundary(rng, false);
+    let mut body: Vec<u8> = Vec::new();
+    let mut fields: Vec<(Vec<u8>, Vec<u8>)> = Vec::new();
+    let mut k = 0;
+    while body.len() < pre {
+        let name = format!("x-amz-meta-f{k}").into_bytes();
+        let len = rng.range(1500, 4500) as usize;
+        let value: Vec<u8> = (0..len).map(|i| b"abcdefghijklmnopqrstuvwxyz0123456789 -"[(i * 7 + k) % 38]).collect();
+        body.extend_from_slice(b"--");
+        body.extend_from_slice(&boundary);
+        body.extend_from_slice(b"\r\nContent-Disposition: form-data; name=\"");
+        body.extend_from_slice(&name);
+        body.extend_from_slice(b"\"\r\n\r\n");
+        body.extend_from_slice(&value);
+        body.extend_from_slice(b"\r\n");
+        fields.push((name, value));
+        k += 1;
+    }
+    let content: Vec<u8> = b"file line 1\r\nfile line 2\r\n".to_vec();
+    body.extend_from_slice(b"--");
+    body.extend_from_slice(&boundary);
+    body.extend_from_slice(b"\r\nContent-Disposition: form-data; name=\"file\"; filename=\"big.txt\"\r\nContent-Type: text/plain\r\n\r\n");
+    body.extend_from_slice(&content);
+    body.extend_from_slice(b"\r\n--");
+    body.extend_from_slice(&boundary);
+    body.extend_from_slice(b"--\r\n");
+    let mut exp_fields = fields.clone();
+    exp_fields.sort_by(|l, r| l.0.cmp(&r.0));
+    Form { boundary, body, valid: true, exp_fields, exp_fname: b"big.txt".to_vec(), exp_ctype: b"text/plain".to_vec(), exp_file: content, lookups: vec![b"x-amz-meta-f0".to_vec(), b"absent".to_vec()] }
+}
+
+/// (3) large forms: no limit on the data in front of the file may depend on where the frames end
+fn gen_mp_big(rng: &mut Rng, tier: &str, emit: &mut dyn FnMut(Vec<String>)) {
+    let rounds = if tier == "thorough" { 12 } else { 3 };
+    for r in 0..rounds {
+        let pre = [21_000usize, 26_000, 45_000, 70_000][r % 4];
+        let form = gen_big_form(rng, pre);
+        emit_mp(&form, &vec![Some(form.body.clone())], 0, true, emit);
+        for size in [16384usize, 8192, 4096, 1500, 333] {
+            emit_mp(&form, &fixed_size(&form.body, size), 0, true, emit);
+        }
+        let frames = random_framing(rng, &form.body);
+        emit_mp(&form, &frames, sched_of(rng), true, emit);
+    }
 }
 
 fn gen_fuzz(rng: &mut Rng, n: u64, emit: &mut dyn FnMut(Vec<String>)) {
